@@ -540,11 +540,76 @@ class Rewriter:
                         break
                     tail.append(toks[q_])
                 tt = ''.join(x.text for x in tail)
+                if tt.startswith('.take('):
+                    # R18: `.range(storage, START, None, Order::Ascending).take(LIMIT).map(|item| { let (_, x) = item?; Ok(x) }).collect[::<..>]()`
+                    #      -> `.range_take_(storage, START, LIMIT)` (first LIMIT values of the prefix after START, in key order)
+                    a1 = nxt(pc_)            # '.'
+                    a2 = nxt(a1)             # take
+                    a3 = nxt(a2)             # (
+                    tc = match_close(toks, a3)
+                    b1 = nxt(tc); b2 = nxt(b1); b3 = nxt(b2)
+                    if b3 < n and is_p(toks[b1], '.') and is_id(toks[b2], 'map') and is_p(toks[b3], '('):
+                        mc = match_close(toks, b3)
+                        clos = re.sub(r'\s+', '', ''.join(x.text for x in toks[b3 + 1:mc] if x.kind not in ('comment', 'doc')))
+                        c1 = nxt(mc); c2 = nxt(c1)
+                        args_txt = re.sub(r'\s+', '', ''.join(x.text for x in toks[nxt(k) + 1:pc_] if x.kind not in ('comment', 'doc')))
+                        if (re.fullmatch(r'\|item\|\{let\(_,(\w+)\)=item\?;Ok\(\1\)\}', clos) and c2 < n and is_p(toks[c1], '.') and is_id(toks[c2], 'collect')
+                                and args_txt.endswith(',None,Order::Ascending')):
+                            q2 = nxt(c2)
+                            if q2 < n and is_p(toks[q2], '::'):
+                                from rustlex import match_angle
+                                q2 = nxt(match_angle(toks, nxt(q2)))
+                            if q2 < n and is_p(toks[q2], '('):
+                                ce = match_close(toks, q2)
+                                first_two = ''.join(x.text for x in toks[nxt(k) + 1:pc_])
+                                first_two = first_two[:first_two.rindex('None')].rstrip().rstrip(',')
+                                lim = ''.join(x.text for x in toks[a3 + 1:tc])
+                                out.append(T('raw', 'range_take_(%s, %s)' % (first_two.strip(), lim.strip()), t.start))
+                                self.rec('R18', '.range(s, start, None, Ascending).take(n).map(|item| Ok(value)).collect()', '.range_take_(s, start, n)')
+                                k = ce + 1
+                                continue
                 if tt.startswith('.next().transpose()'):
                     out.append(T('ident', 'range_first_', t.start))
                     self.rec('R17', '.range(..).next().transpose()', '.range_first_(..)')
                     out.extend(toks[nxt(k):pc_ + 1])
                     k = q_ + 1
+                    continue
+            if is_id(t, 'FARMS') or is_id(t, 'POSITIONS'):
+                # R18c: `FARMS.idx.lp_denom.prefix(X)` -> `farms_lp_prefix_(X)` (multi-index prefix of the lp_denom index)
+                seq_ = []
+                q4 = k
+                for _ in range(6):
+                    q4 = nxt(q4)
+                    if q4 >= n:
+                        break
+                    seq_.append(toks[q4])
+                tx_ = ''.join(x.text for x in seq_)
+                if is_id(t, 'FARMS') and tx_ == '.idx.lp_denom.prefix':
+                    out.append(T('ident', 'farms_lp_prefix_', t.start))
+                    self.rec('R18', 'FARMS.idx.lp_denom.prefix(x)', 'farms_lp_prefix_(x)')
+                    k = q4 + 1
+                    continue
+            if is_id(t, 'calc_range_start_string') and nxt(k) < n and is_p(toks[nxt(k)], '('):
+                # R18b: `cw_utils::calc_range_start_string(X).map(Bound::ExclusiveRaw)` -> `range_start_(X)` (exclusive start key)
+                pc2 = match_close(toks, nxt(k))
+                tl = []
+                q3 = pc2
+                for _ in range(7):
+                    q3 = nxt(q3)
+                    if q3 >= n:
+                        break
+                    tl.append(toks[q3])
+                if ''.join(x.text for x in tl) == '.map(Bound::ExclusiveRaw)':
+                    # drop a preceding `cw_utils ::`
+                    while out and (out[-1].kind in ('ws',) or is_p(out[-1], '::') or is_id(out[-1], 'cw_utils')):
+                        if is_id(out[-1], 'cw_utils'):
+                            out.pop()
+                            break
+                        out.pop()
+                    out.append(T('ident', 'range_start_', t.start))
+                    out.extend(toks[nxt(k):pc2 + 1])
+                    self.rec('R18', 'cw_utils::calc_range_start_string(x).map(Bound::ExclusiveRaw)', 'range_start_(x)')
+                    k = q3 + 1
                     continue
             if is_id(t, 'sort_by') and prv_out() is not None and is_p(prv_out(), '.'):
                 out.append(T('ident', 'sort_by_', t.start))
